@@ -28,7 +28,8 @@ def run(ctx):
         "LZMA_CHECK_NONE streams and .lzma payload damage are outside the guarantee (statement); they still run for "
         "the truncation and non-payload rules",
     ]
-    ctx.run_shards(exe, ["--mode", "c05"], 96 if ctx.tier == "quick" else 960, timeout=7200)
+    ctx.run_shards(exe, ["--mode", "c05"], 96 if ctx.tier == "quick" else 960, timeout=7200,
+                   env={"VERIF_CASE_WATCHDOG": "3000"})
     c = ctx.counters
     ctx.exhaustive = False
     ctx.extra_cov["exhaustive_per_base_file"] = True
